@@ -75,13 +75,19 @@ pub struct Stats {
     pub grows: u64,
 }
 
+#[derive(Clone, Debug)]
+pub enum Pend {
+    Write { off: u64, data: Arc<[u8]>, applied: usize },
+    SetLen(u64),
+}
+
 pub type SyncHook = Box<dyn FnMut(&[u8]) -> Option<Vec<(u64, u64)>> + Send>;
 
 pub struct DiskState {
     pub live: Vec<u8>,
     pub durable: Vec<u8>,
-    /// indices into `log` of writes / set_lens issued since the last successful sync
-    pub pending: Vec<usize>,
+    /// writes / set_lens issued since the last successful sync (applied to `durable` on sync)
+    pub pending: Vec<Pend>,
     pub log: Vec<Op>,
     pub record: bool,
     pub closed: bool,
@@ -309,10 +315,7 @@ impl redb::StorageBackend for SimDisk {
         }
         s.live.resize(len as usize, 0);
         s.stats.max_len = s.stats.max_len.max(len);
-        let idx = s.log.len().wrapping_sub(1);
-        if s.record {
-            s.pending.push(idx);
-        }
+        s.pending.push(Pend::SetLen(len));
         Ok(())
     }
 
@@ -331,8 +334,19 @@ impl redb::StorageBackend for SimDisk {
         if f.is_some() {
             return Err(injected());
         }
-        s.durable = s.live.clone();
-        s.pending.clear();
+        let pend = std::mem::take(&mut s.pending);
+        for p in pend {
+            match p {
+                Pend::Write { off, data, applied } => {
+                    let o = off as usize;
+                    if o + applied <= s.durable.len() {
+                        s.durable[o..o + applied].copy_from_slice(&data[..applied]);
+                    }
+                }
+                Pend::SetLen(l) => s.durable.resize(l as usize, 0),
+            }
+        }
+        debug_assert!(s.durable == s.live);
         s.syncs_ok += 1;
         s.protected.clear();
         if let Some(mut h) = s.sync_hook.take() {
@@ -380,16 +394,12 @@ impl redb::StorageBackend for SimDisk {
                 s.stats.partial_writes += 1;
             }
         }
+        let shared: Arc<[u8]> = Arc::from(data);
+        if applied > 0 {
+            s.pending.push(Pend::Write { off: offset, data: shared.clone(), applied });
+        }
         if s.record {
-            s.log.push(Op::Write {
-                off: offset,
-                data: Arc::from(data),
-                applied,
-            });
-            if applied > 0 {
-                let idx = s.log.len() - 1;
-                s.pending.push(idx);
-            }
+            s.log.push(Op::Write { off: offset, data: shared, applied });
         }
         if f.is_some() {
             return Err(injected());
